@@ -35,8 +35,8 @@ RULE = (
     "or a designated zero-length corner case, covered separately under 'corner')."
 )
 VARIANTS = {"quick": ["plain", "asan"], "thorough": ["plain", "asan"]}
-BUDGET = {"quick": dict(cases=56000, seconds=100), "thorough": dict(cases=1400000, seconds=1000)}
-MIN_NONTRIVIAL = {"quick": 8000, "thorough": 100000}
+BUDGET = {"quick": dict(cases=320000, seconds=120), "thorough": dict(cases=6000000, seconds=1100)}
+MIN_NONTRIVIAL = {"quick": 60000, "thorough": 500000}
 ASSUMPTIONS = [
     "the Python definition in kernel-specification.yml is the specification; for the 30 kernels whose YAML says "
     "'Insert Python definition here' a harness-written reference (kernel_overrides.HARNESS_DEFINITIONS) or only the "
@@ -168,7 +168,7 @@ def _same(t, got, want):
 
 class Outcome(object):
     """Result of running one specialization on one tuple through all monitors."""
-    __slots__ = ("spec", "ref", "called", "status", "outputs", "violations", "skipped")
+    __slots__ = ("spec", "ref", "called", "status", "outputs", "violations", "skipped", "known")
 
     def __init__(self, spec):
         self.spec = spec
@@ -178,6 +178,7 @@ class Outcome(object):
         self.outputs = {}
         self.violations = []
         self.skipped = None
+        self.known = []
 
 
 def evaluate(builddir, spec, args, asan, valid=True, maxreport=6):
@@ -194,6 +195,17 @@ def evaluate(builddir, spec, args, asan, valid=True, maxreport=6):
     if ref.status == "ok" and not valid:
         out.skipped = "injected-violation-not-detected-by-definition"
         return out
+    if not valid and spec.kernel.has_definition and ks.has_unsigned_inputs(spec):
+        # invalid input + unsigned element type: the YAML's unbounded integers and C's modular uint32 arithmetic
+        # may part (stops - starts < 0); such a tuple is outside the contract *and* ambiguous -> not used
+        ref2 = ks.run_definition(spec, args, unsigned_wrap=True)
+        if not ks.same_result(ref, ref2):
+            out.skipped = "invalid-input-and-definition-depends-on-unsigned-wrap"
+            return out
+    known = ko.KNOWN_DEFECTS.get(kname) if not ko.strict() else None
+    if known is not None and known.get("avoid") is not None and known["avoid"](spec.name, args):
+        out.skipped = "known-defect-would-crash:" + known["mechanism"]
+        return out
     func = _func(builddir, spec)
     if func is None:
         out.skipped = "symbol-not-exported"
@@ -202,128 +214,103 @@ def evaluate(builddir, spec, args, asan, valid=True, maxreport=6):
     ext_over = ko.EXTENT.get(kname, {})
     no_compare = ko.NO_COMPARE.get(kname, {})
     guard = not asan
-    bufs = []
+    bufs = []            # (Buffer, label, TypeInfo)
     call = []
-    outbufs = {}
+    outbufs = []         # (arg, label, Buffer, nelements, written-map, init)
+
+    def new_buffer(nelem, t, label, values=None, sentinel=False):
+        b = Buffer(nelem * t.size, guard)
+        bufs.append((b, label, t))
+        if sentinel:
+            b.fill(SENTINEL_BYTE)
+        if values:
+            _store(b, t, values)
+        return b
+
+    def table_of(subs):
+        pb = Buffer(len(subs) * 8, guard)
+        bufs.append((pb, "pointer table", ks.TYPES["int64_t"]))
+        if subs:
+            (ctypes.c_void_p * len(subs)).from_address(pb.ptr)[:] = [sb.ptr for sb in subs]
+        return pb
+
     try:
         for a in spec.args:
             if not a.is_list:
-                call.append(ks.cast(a.t, args[a.name]) if a.t.kind != "bool" else bool(args[a.name]))
+                call.append(bool(args[a.name]) if a.t.kind == "bool" else ks.cast(a.t, args[a.name]))
                 continue
-            if a.is_out:
+            if a.is_out and a.depth == 2:
+                sub_ext = ref.extents.get(a.name + "[]", [])
+                sub_w = ref.outputs.get(a.name + "[]", [])
+                subs = []
+                for jx, n in enumerate(sub_ext):
+                    if ref.status == "error":
+                        n += ERROR_SLACK
+                    label = "%s[%d]" % (a.name, jx)
+                    b = new_buffer(n, a.t, label, sentinel=True)
+                    subs.append(b)
+                    outbufs.append((a, label, b, n, sub_w[jx], None))
+                call.append(table_of(subs).ptr)
+            elif a.is_out:
                 n = ref.extents.get(a.name, 0)
-                written = ref.outputs.get(a.name, {})
                 if a.name in ext_over:
                     n = max(n, int(ext_over[a.name]["extent"](args, ref)))
                 if ref.status == "error":
                     n += ERROR_SLACK
-                if a.depth == 2:
-                    # list of output arrays: args[name] gives the number of sub-arrays, extents from ref
-                    subs = []
-                    sub_ext = ref.extents.get(a.name + "[]", [])
-                    for j in range(len(sub_ext)):
-                        b = Buffer(sub_ext[j] * a.t.size, guard)
-                        b.fill(SENTINEL_BYTE)
-                        bufs.append(b)
-                        subs.append(b)
-                    pb = Buffer(len(subs) * 8, guard)
-                    bufs.append(pb)
-                    if subs:
-                        (ctypes.c_void_p * len(subs)).from_address(pb.ptr)[:] = [s.ptr for s in subs]
-                    outbufs[a.name] = (a, subs, None)
-                    call.append(pb.ptr)
-                    continue
-                b = Buffer(n * a.t.size, guard)
-                b.fill(SENTINEL_BYTE)
                 init = args.get(a.name)
-                if init is not None:
-                    _store(b, a.t, [ks.cast(a.t, x) for x in init])
-                bufs.append(b)
-                outbufs[a.name] = (a, b, n)
+                vals = [ks.cast(a.t, x) for x in init] if init is not None else None
+                b = new_buffer(n, a.t, a.name, vals, sentinel=True)
+                outbufs.append((a, a.name, b, n, ref.outputs.get(a.name, {}), vals))
                 call.append(b.ptr)
             elif a.depth == 2:
-                subs = []
-                for sub in args[a.name]:
-                    b = Buffer(len(sub) * a.t.size, guard)
-                    _store(b, a.t, [ks.cast(a.t, x) for x in sub])
-                    bufs.append(b)
-                    subs.append(b)
-                pb = Buffer(len(subs) * 8, guard)
-                bufs.append(pb)
-                if subs:
-                    (ctypes.c_void_p * len(subs)).from_address(pb.ptr)[:] = [s.ptr for s in subs]
-                call.append(pb.ptr)
+                subs = [new_buffer(len(sub), a.t, "%s[%d]" % (a.name, jx), [ks.cast(a.t, x) for x in sub])
+                        for jx, sub in enumerate(args[a.name])]
+                call.append(table_of(subs).ptr)
             else:
                 vals = [ks.cast(a.t, x) for x in args[a.name]]
-                b = Buffer(len(vals) * a.t.size, guard)
-                _store(b, a.t, vals)
-                bufs.append(b)
-                call.append(b.ptr)
+                call.append(new_buffer(len(vals), a.t, a.name, vals).ptr)
 
         err = func(*call)
         out.called = True
         failed = bool(err.str)
         out.status = "error" if failed else "ok"
+        vio = []
 
         # ---- monitor 2: extents (plain build: canaries; asan build: the red zones did the work)
         if guard:
-            for b, a in _buffers_with_args(spec, bufs):
+            for b, label, t in bufs:
                 ok, where = b.canaries_intact()
                 if not ok:
-                    out.violations.append(("canary", dict(where, argument=a.name, specialization=spec.name,
-                                                          extent_elements=b.nbytes // a.t.size)))
+                    vio.append(("canary", dict(where, argument=label, specialization=spec.name,
+                                               extent_elements=b.nbytes // t.size)))
         # ---- monitor 1: status
         want_fail = ref.status == "error"
         if failed != want_fail:
-            out.violations.append(("status-mismatch", {
+            vio.append(("status-mismatch", {
                 "specialization": spec.name,
                 "definition": "ValueError(%s)" % ref.detail if want_fail else "success",
                 "kernel": ("error: %s (id=%d attempt=%d)" % (err.str.decode(errors="replace")[:80],
                                                               err.identity, err.attempt)) if failed else "success"}))
         # ---- monitor 1: outputs, and sentinel holes
         if not failed and not want_fail:
-            for name, (a, b, n) in outbufs.items():
-                if a.depth == 2:
-                    subs = b
-                    want = ref.outputs.get(name + "[]", [])
-                    for j, sb in enumerate(subs):
-                        got = _load(sb, a.t, sb.nbytes // a.t.size)
-                        out.outputs["%s[%d]" % (name, j)] = got
-                        _compare(out, spec, a, "%s[%d]" % (name, j), got, want[j] if j < len(want) else {},
-                                 no_compare.get(name), maxreport)
-                    continue
+            for a, label, b, n, written, init in outbufs:
                 got = _load(b, a.t, n)
-                out.outputs[name] = got
-                _compare(out, spec, a, name, got, ref.outputs.get(name, {}), no_compare.get(name), maxreport,
-                         init=args.get(name), allow_extra=ext_over.get(name))
+                out.outputs[label] = got
+                _compare(vio, spec, a, label, got, written, no_compare.get(a.name), maxreport, init=init,
+                         allow_extra=ext_over.get(a.name))
+            pred = ko.PREDICATES.get(kname)
+            if pred is not None:
+                for prob in pred(spec, args, out.outputs)[:maxreport]:
+                    vio.append(("output-mismatch", dict(prob, specialization=spec.name, oracle="predicate")))
+        for kind, detail in vio:
+            if known is not None and known["match"](spec.name, kind, detail):
+                out.known.append((known["mechanism"], kind))
+            else:
+                out.violations.append((kind, detail))
         return out
     finally:
-        for b in bufs:
+        for b, _label, _t in bufs:
             b.free()
-
-
-def _buffers_with_args(spec, bufs):
-    # bufs were appended in argument order, nested ones first their sub-buffers then the pointer table
-    # (we only need a name for the report)
-    res = []
-    it = iter(bufs)
-    for a in spec.args:
-        if not a.is_list:
-            continue
-        if a.depth == 2:
-            # unknown number of sub-buffers: consume until pointer table (size multiple of 8, guard same) --
-            # simpler: the report names the argument for every buffer until the next argument starts
-            pass
-        res.append(a)
-    # zip conservatively: when nested arguments exist the names may be approximate
-    out = []
-    ai = 0
-    lists = [a for a in spec.args if a.is_list]
-    if all(a.depth == 1 for a in lists):
-        return list(zip(bufs, lists))
-    for b in bufs:
-        out.append((b, lists[min(ai, len(lists) - 1)]))
-    return out
 
 
 def _sentinel_value(t):
@@ -331,14 +318,15 @@ def _sentinel_value(t):
     return (t.ctype).from_buffer_copy(raw).value
 
 
-def _compare(out, spec, a, name, got, want, skip, maxreport, init=None, allow_extra=None):
+def _compare(vio, spec, a, name, got, want, skip, maxreport, init=None, allow_extra=None):
     t = a.t
     sent = _sentinel_value(t)
     bad = []
     holes = []
+    skip_all = skip is not None and skip.get("all")
     for i, g in enumerate(got):
         if i in want:
-            if skip is not None and skip.get("all"):
+            if skip_all:
                 continue
             w = want[i]
             if t.kind == "bool":
@@ -349,22 +337,22 @@ def _compare(out, spec, a, name, got, want, skip, maxreport, init=None, allow_ex
                 ok = g == w
             if not ok:
                 bad.append({"index": i, "kernel": g, "definition": w})
-        else:
+        elif allow_extra is None:
             if init is not None and i < len(init):
-                expect = ks.cast(t, init[i])
+                expect = init[i]
                 same = (g == expect) or (t.kind == "bool" and (g != 0) == bool(expect)) or \
                        (t.kind == "float" and g != g and expect != expect)
             else:
                 same = (g == sent) or (t.kind == "float" and g != g and sent != sent)
-            if not same and not (allow_extra is not None):
+            if not same:
                 holes.append({"index": i, "kernel": g})
     if bad:
-        out.violations.append(("output-mismatch", {"specialization": spec.name, "argument": name,
-                                                   "ctype": t.name, "count": len(bad), "first": bad[:maxreport]}))
+        vio.append(("output-mismatch", {"specialization": spec.name, "argument": name,
+                                        "ctype": t.name, "count": len(bad), "first": bad[:maxreport]}))
     if holes:
-        out.violations.append(("unwritten-output-touched", {"specialization": spec.name, "argument": name,
-                                                            "ctype": t.name, "count": len(holes),
-                                                            "first": holes[:maxreport]}))
+        vio.append(("unwritten-output-touched", {"specialization": spec.name, "argument": name,
+                                                 "ctype": t.name, "count": len(holes),
+                                                 "first": holes[:maxreport]}))
 
 
 # ----------------------------------------------------------------- the check
@@ -385,28 +373,81 @@ def gen_case(rng, tier, index):
     return ka.gen_case(rng, S, sp, tier, index)
 
 
-def _nonempty(args):
+def _nonempty(args, ref):
+    """Some array is non-empty, or the definition wrote more than a lone scalar result."""
     for v in args.values():
         if isinstance(v, list) and len(v) > 0:
             return True
-    return False
+    n = 0
+    for e in ref.extents.values():
+        n += sum(e) if isinstance(e, list) else e
+    return n >= 2 or ref.status == "error"
 
 
 def _values_equal_across(ta, va, tb, vb):
-    """Cross-specialisation equality of one output element held in types ta and tb."""
-    if ta.kind == "float" or tb.kind == "float":
+    """Cross-specialisation equality of one output element held in types ta and tb (None: not comparable)."""
+    fa, fb = ta.kind == "float", tb.kind == "float"
+    if fa != fb or (ta.kind == "bool") != (tb.kind == "bool"):
+        return None     # bool vs number, integer vs float: different logical outputs
+    if fa:
         if va != va or vb != vb:
             return (va != va) and (vb != vb)
-        if ta.kind == "float" and tb.kind == "float":
-            if ta.bits == tb.bits:
-                return va == vb
-            return ks.cast(ks.TYPES["float"], va) == ks.cast(ks.TYPES["float"], vb)
-        return None     # int vs float output: not compared
-    if ta.kind == "bool" or tb.kind == "bool":
+        if ta.bits == tb.bits:
+            return va == vb
+        return ks.cast(ks.TYPES["float"], va) == ks.cast(ks.TYPES["float"], vb)
+    if ta.kind == "bool":
         return bool(va) == bool(vb)
     bits = min(ta.bits, tb.bits)
     m = (1 << bits) - 1
     return (int(va) & m) == (int(vb) & m)
+
+
+def _report(ctx, kname, names, kind, detail):
+    """A violation, unless it is a recorded defect of the unchanged tree (kernel_overrides.KNOWN_DEFECTS)."""
+    known = ko.KNOWN_DEFECTS.get(kname) if not ko.strict() else None
+    if known is not None and any(known["match"](n, kind, detail) for n in names):
+        ctx.cover("known-defect-reobserved", known["mechanism"])
+        return
+    ctx.violation(kind, detail)
+
+
+_POISONED = None
+
+
+def _poisoned():
+    """Specializations on which an earlier incarnation of this worker stream died (sanitizer report, signal).
+
+    The runner restarts a worker right after the case that killed it and reports that case; calling the same
+    broken specialization again and again only burns the budget (every death costs a restart and a confirm-alone
+    run), so the rest of the stream leaves it alone.  Read from this stream's own journal: "C i <case>" lines that
+    never got their "R i".  Best effort; any surprise means "nothing poisoned".
+    """
+    global _POISONED
+    if _POISONED is not None:
+        return _POISONED
+    _POISONED = set()
+    try:
+        av = sys.argv
+        if len(av) >= 12 and av[1] == "--worker":
+            jp = os.path.join(av[10], "journal.%s" % av[6])
+            import json
+            open_case = None
+            with open(jp) as f:
+                for line in f:
+                    if line.startswith("C "):
+                        if open_case is not None:
+                            _POISONED.add(open_case)
+                        try:
+                            open_case = json.loads(line.split(" ", 2)[2]).get("spec")
+                        except Exception:
+                            open_case = None
+                    elif line.startswith("R "):
+                        open_case = None
+            if open_case is not None:
+                _POISONED.add(open_case)
+    except Exception:
+        pass
+    return _POISONED
 
 
 def run_case(ctx, case):
@@ -415,6 +456,13 @@ def run_case(ctx, case):
     if sp is None:
         ctx.count("unknown_specialization")
         return
+    if _poisoned():
+        dead = _poisoned()
+        if sp.name in dead:
+            ctx.cover("outcome", "skipped:specialization-already-killed-this-worker-stream")
+            return
+        if any(n in dead for n in case.get("siblings", [])):
+            case = dict(case, siblings=[n for n in case["siblings"] if n not in dead])
     asan = ctx.variant == "asan"
     args = case["args"]
     valid = case.get("valid", True)
@@ -446,7 +494,7 @@ def run_case(ctx, case):
     if case.get("corner"):
         ctx.cover("corner", case["corner"])
         ctx.nontrivial(True)
-    elif _nonempty(args):
+    elif _nonempty(args, ref):
         ctx.nontrivial(True)
     else:
         ctx.cover("corner", "all-arrays-empty")
@@ -454,6 +502,8 @@ def run_case(ctx, case):
     for kind, detail in res.violations:
         detail = dict(detail, kernel=kname)
         ctx.violation(kind, detail)
+    for mech, _kind in res.known:
+        ctx.cover("known-defect-reobserved", mech)
     # ---- monitor 3: sibling specialisations on the same logical tuple
     for sibname in case.get("siblings", []):
         sib = S.byspec.get(sibname)
@@ -470,10 +520,12 @@ def run_case(ctx, case):
         ctx.cover("specialization-as-sibling", sib.name)
         for kind, detail in r2.violations:
             ctx.violation(kind, dict(detail, kernel=kname, as_sibling_of=sp.name))
+        for mech, _kind in r2.known:
+            ctx.cover("known-defect-reobserved", mech)
         if res.called and r2.called:
             if res.status != r2.status:
-                ctx.violation("cross-specialisation", {"kernel": kname, "a": sp.name, "b": sib.name,
-                                                       "status_a": res.status, "status_b": r2.status})
+                _report(ctx, kname, (sp.name, sib.name), "cross-specialisation",
+                        {"kernel": kname, "a": sp.name, "b": sib.name, "status_a": res.status, "status_b": r2.status})
             elif res.status == "ok":
                 _cross(ctx, kname, sp, res, sib, r2)
     if res.called:
@@ -501,23 +553,41 @@ def _cross(ctx, kname, sp, ra, sib, rb):
             if i not in wa or i not in wb:
                 continue
             # only where the logical value is held exactly by both element types
-            if sp.kernel.has_definition and not _fits_both(a.t, b.t, wa[i], wb[i]):
+            if not _fits_both(a.t, b.t, wa[i], wb[i]):
                 continue
             eq = _values_equal_across(a.t, ga[i], b.t, gb[i])
             if eq is False:
                 diffs.append({"index": i, sp.name: ga[i], sib.name: gb[i]})
         if diffs:
-            ctx.violation("cross-specialisation", {"kernel": kname, "argument": a.name, "a": sp.name,
-                                                   "b": sib.name, "count": len(diffs), "first": diffs[:6]})
+            _report(ctx, kname, (sp.name, sib.name), "cross-specialisation",
+                    {"kernel": kname, "argument": a.name, "a": sp.name, "b": sib.name, "count": len(diffs),
+                     "first": diffs[:6]})
         else:
             ctx.count("cross_specialisation_outputs_compared")
 
 
 def _fits_both(ta, tb, va, vb):
-    # the references of the two specialisations agree on the logical value => it is representable in both
-    if ta.kind == "float" or tb.kind == "float":
-        return True
-    return int(va) == int(vb)
+    # compared only where the references of the two specialisations predict the same logical value (no wrap in
+    # the narrower integer type, no different accumulated rounding in the narrower float type)
+    return _values_equal_across(ta, va, tb, vb) is True
+
+
+def signature(vio):
+    """Violations of one kernel/argument/kind are one finding."""
+    d = vio.get("detail") or {}
+    if not isinstance(d, dict) or "report" in d:
+        return None
+    return "%s:%s:%s" % (vio["kind"], d.get("kernel", "?"), d.get("argument", d.get("specialization", "")))
+
+
+def classify(vio):
+    """Mechanism id for known_findings.json: one per kernel and kind of disagreement."""
+    d = vio.get("detail") or {}
+    case = vio.get("case") or {}
+    k = (d.get("kernel") if isinstance(d, dict) else None) or case.get("kernel")
+    if not k:
+        return None
+    return "C13:%s:%s" % (k, vio["kind"])
 
 
 def finish(merged, ev):
@@ -543,11 +613,16 @@ def finish(merged, ev):
             notreached.append({"specialization": s.name, "reason": why})
     cov["specializations_not_reached"] = notreached
     cov["definition_origin"] = {
-        "yaml": sum(1 for k in S.kernels if k.origin == "yaml"),
-        "yaml_repaired_by_override": sorted(k.name for k in S.kernels if k.origin == "override"),
-        "harness_reference (YAML has none)": sorted(k.name for k in S.kernels if k.origin == "harness"),
-        "none (extent + cross-specialisation monitors only)": sorted(k.name for k in S.kernels if k.origin == "none"),
+        "yaml, as written (plus the mechanical repairs)": sum(1 for k in S.kernels if k.origin == "yaml"),
+        "yaml, patched (kernel_overrides.DEFINITION_PATCHES)": sorted(k.name for k in S.kernels if k.origin == "yaml-patched"),
+        "yaml, replaced (kernel_overrides.DEFINITION_OVERRIDES)": sorted(k.name for k in S.kernels if k.origin == "yaml-replaced"),
+        "harness reference, YAML has none (kernel_overrides.HARNESS_DEFINITIONS)": sorted(
+            k.name for k in S.kernels if k.origin == "harness"),
+        "none (extent monitor with declared extents only)": sorted(k.name for k in S.kernels if k.origin == "none"),
     }
+    errk = set(maps.get("error-kernel", {}))
+    cov["kernels_whose_error_path_was_never_taken"] = sorted(
+        k.name for k in S.kernels if "raise ValueError" in k.source and k.name not in errk)
     cov["overrides"] = ko.summary()
     cov["mechanical_repairs"] = ks.REPAIRS
     tight = maps.get("input-read-to-its-end", {})
@@ -559,11 +634,17 @@ def finish(merged, ev):
             if a.is_list and not a.is_out and ("%s/%s" % (k.name, a.name)) not in tight:
                 loose.append("%s/%s" % (k.name, a.name))
     cov["inputs_never_read_to_their_last_element"] = loose
-    # keep the evidence file small: per-specialization counts collapse to min/median
-    counts = sorted(maps.get("specialization", {}).values())
+    # keep the evidence file small: per-specialization counts collapse to min/median/max + the 10 least visited
+    spmap = maps.get("specialization", {})
+    counts = sorted(spmap.values())
     if counts:
-        cov["accepted_tuples_per_specialization"] = {"min": counts[0], "median": counts[len(counts) // 2],
-                                                     "max": counts[-1]}
+        cov["accepted_tuples_per_specialization"] = {
+            "min": counts[0], "median": counts[len(counts) // 2], "max": counts[-1],
+            "least_visited": dict(sorted(spmap.items(), key=lambda kv: kv[1])[:10])}
+    cmaps = cov.get("maps", {})
+    for big in ("specialization", "specialization-as-sibling", "input-read-to-its-end"):
+        if big in cmaps:
+            cmaps[big] = {"distinct_keys": len(cmaps[big]), "total": sum(cmaps[big].values())}
 
 
 if __name__ == "__main__":
